@@ -10,7 +10,11 @@ def RPc.early : RPc → Bool
   | .init | .top | .acq | .next | .insrc => true
   | _ => false
 
-def deadCount (s : State) : Nat := (s.wk.map (fun p => if p = WPc.dead then 1 else 0)).sum
+def WPc.deadN : WPc → Nat
+  | .dead => 1
+  | _ => 0
+
+def deadCount (s : State) : Nat := (s.wk.map WPc.deadN).sum
 
 /-- `steps_since_snapshot` has already been incremented for the item in the consumer's hand. -/
 def CPc.bump : CPc → Nat
@@ -59,6 +63,8 @@ structure Inv (c : Cfg) (s : State) : Prop where
   lenEq : s.got.length = s.outs.length + s.errs + (if c.term = .stop then s.got.count c.src.length else 0)
   closed : c.inOrder = true → s.errs = 0 → s.cpc ≠ .boot →
     s.snap = c.base + (s.outs.length - s.outs.length % c.f) ∧ s.steps = s.outs.length % c.f + s.cpc.bump
+  stopOf : (s.cpc = .set2 ∨ s.cpc = .shut1 ∨ s.cpc = .closed) → s.stop = true
+  bootI : s.cpc = .boot → s.outs = [] ∧ s.steps = 0
 
 /-- Discharges a field that the action did not touch. -/
 macro "same" h:ident : tactic => `(tactic| (
@@ -69,14 +75,14 @@ macro "same" h:ident : tactic => `(tactic| (
   | exact ($h).outS | exact ($h).outBuf | exact ($h).outSq | exact ($h).outC | exact ($h).popItem | exact ($h).outsEq
   | exact ($h).inqSorted | exact ($h).order | exact ($h).bufNe | exact ($h).doneI | exact ($h).doneC | exact ($h).fin
   | exact ($h).getNotFin | exact ($h).nstopStop | exact ($h).storeSorted | exact ($h).storeSound
-  | exact ($h).storeComplete | exact ($h).lenEq | exact ($h).closed))
+  | exact ($h).storeComplete | exact ($h).lenEq | exact ($h).closed | exact ($h).stopOf | exact ($h).bootI))
 
 /- `fr [extra simp facts] h.field`: re-establishes a field whose statement mentions a changed component only
 through the derived observables. -/
 open Lean.Parser.Tactic in
 macro "fr" "[" ls:simpLemma,* "]" t:term : tactic => `(tactic| (
   have hfr := $t
-  simp only [cnt, held, pending, appended, deadCount, RPc.hand, RPc.holds, RPc.early, RPc.permit, CPc.hand, CPc.permit,
+  simp only [cnt, held, pending, appended, deadCount, RPc.hand, RPc.holds, RPc.inCall, RPc.early, RPc.permit, CPc.hand, CPc.permit,
     CPc.bump, SPc.hand, SPc.holds, $ls,*] at hfr ⊢
   first | exact hfr | omega | (simp at hfr ⊢; first | exact hfr | omega | simp_all)))
 
@@ -138,7 +144,7 @@ theorem inv_init (c : Cfg) : Inv c (init c) := by
     simp at h1
     simp [h1, h2]
   case permits =>
-    simp [held, pending, init, RPc.holds, CPc.permit]
+    simp [held, pending, init, RPc.holds, RPc.inCall, CPc.permit]
     have h1 : ((List.replicate c.N WPc.top).map WPc.holds).sum = 0 :=
       sum_replicate_zero _ _ _ (by simp [WPc.holds])
     have h2 : SPc.holds (if c.inOrder = true then SPc.top else SPc.off) = 0 := by
@@ -170,5 +176,33 @@ theorem inv_init (c : Cfg) : Inv c (init c) := by
   case storeComplete => simp [init, appended]
   case lenEq => simp [init]
   case closed => simp [init]
+  case stopOf => simp [init]
+  case bootI => simp [init]
+
+/-- in_order: what the consumer has processed is an initial segment of the indices. -/
+theorem range_prefix (a b : List Nat) (n : Nat) (h : a ++ b = List.range n) : a = List.range a.length := by
+  have hl : a.length ≤ n := by
+    have := congrArg List.length h
+    simp at this; omega
+  have h1 : (a ++ b).take a.length = a := by simp
+  rw [h, List.take_range] at h1
+  rw [← h1]; simp [Nat.min_eq_left hl]
+
+theorem order_got {c : Cfg} {s : State} (h : Inv c s) (hio : c.inOrder = true) : s.got = List.range s.got.length := by
+  have := h.order hio
+  rw [List.append_assoc] at this
+  exact range_prefix _ _ _ this
+
+theorem order_hand {c : Cfg} {s : State} (h : Inv c s) (hio : c.inOrder = true) {i : Nat}
+    (hi : s.cpc.hand = some i) : i = s.got.length := by
+  have := h.order hio
+  rw [hi] at this
+  have h2 : (s.got ++ [i]) ++ idxs s.sq = List.range s.cur := by simpa using this
+  have h3 := range_prefix _ _ _ h2
+  have h4 : (s.got ++ [i])[s.got.length]? = some i := by simp
+  rw [h3] at h4
+  rw [List.getElem?_range] at h4
+  · simp at h4; omega
+  · simp
 
 end TDV.PM
